@@ -205,6 +205,14 @@ pub struct Sim {
     /// Candidates for which the hooked tree/file decision of a negation differs from "matches an
     /// always-exhaustive alternative".
     pub tree_decision_mismatches: Vec<String>,
+    /// Relative paths of directories discarded as trees because a component program of the glob
+    /// (hook H2) rejected them.
+    pub td_by_glob: BTreeSet<String>,
+    /// (directory, entry): entries beneath such a directory that the glob's complete program
+    /// (public API) matches — the component program discarded a directory that it *could* match
+    /// into (round 9, C13-J; the decision is borrowed through a hook, so it is compared with one
+    /// derived from the public API).
+    pub matches_beneath_glob_discards: Vec<(String, String)>,
 }
 
 pub fn candidate_text(prefix: &[String], rel: &str) -> String {
@@ -232,10 +240,20 @@ pub fn simulate(
         errors: Vec::new(),
         read: Vec::new(),
         tree_decision_mismatches: Vec::new(),
+        td_by_glob: BTreeSet::new(),
+        matches_beneath_glob_discards: Vec::new(),
     };
     let prefix: Vec<String> = glob.map(|g| g.prefix.clone()).unwrap_or_default();
     for e in entries {
-        if sim.td.iter().any(|d| is_strictly_beneath(&e.rel, d)) {
+        if let Some(d) = sim.td.iter().find(|d| is_strictly_beneath(&e.rel, d)) {
+            if let Some(g) = glob {
+                if !e.is_err && sim.td_by_glob.contains(d) && sim.matches_beneath_glob_discards.len() < 4 {
+                    let cand = if g.rooted { format!("/{}", candidate_text(&prefix, &e.rel)) } else { candidate_text(&prefix, &e.rel) };
+                    if guarded(|| g.glob.is_match(cand.as_str())) == Some(true) {
+                        sim.matches_beneath_glob_discards.push((d.clone(), e.rel.clone()));
+                    }
+                }
+            }
             continue;
         }
         let depth = prefix.len() + e.depth;
@@ -271,6 +289,9 @@ pub fn simulate(
             if mismatch {
                 kept = false;
                 tree = true;
+                if e.is_dir && e.descends {
+                    sim.td_by_glob.insert(e.rel.clone());
+                }
             }
             else if comps.len() < g.components.len() {
                 kept = false;
